@@ -1,8 +1,10 @@
 package main
 
-// The value-level behaviour of the update engine is about to be changed by the repairs of
-// C02/C04 (selector updates reaching every match, the writecheck flag surviving remote writes,
-// write checks only for addressed items, unknown identifiers in remote writes).  None of them
+// The value-level behaviour of the update engine is changed by the repairs of C02/C04 (selector
+// updates reaching every match, the writecheck flag surviving remote writes, write checks only for
+// addressed items, unknown identifiers in remote writes) and of C05 (306e400: a selector update
+// without a data item fails instead of panicking; db846a9: SelectorMatch treats an item without a
+// value for a selected field as not matching instead of dereferencing nil).  None of them
 // concerns the memory discipline C11 is about, and the C11 theorems hold for every setting of
 // the corresponding switches of coq/Model/SnapStore.v ([quirks]); the correspondence check
 // needs the setting of the tree it runs against, which is read off the real engine here.
@@ -52,7 +54,7 @@ func b2i(b bool) int64 {
 	return 0
 }
 
-func probeQuirks() (q [5]int64) {
+func probeQuirks() (q [7]int64) {
 	defer func() {
 		if e := recover(); e != nil {
 			panic("c11: probing the update engine failed")
@@ -112,5 +114,28 @@ func probeQuirks() (q [5]int64) {
 		_, ok := model.UpdateList(true, ex, []model.LoadControlLimitDataType{limit(9, nil, false)}, nil, nil)
 		q[4] = b2i(!ok)
 	}
+	// 6: SelectorMatch on an item that has no value for the selected field: no match, or a nil dereference?
+	func() {
+		defer func() {
+			if e := recover(); e != nil {
+				q[5] = 0
+			}
+		}()
+		fd := &model.FilterData{Selector: &model.LoadControlLimitListDataSelectorsType{LimitId: util.Ptr(model.LoadControlLimitIdType(1))}}
+		q[5] = b2i(!fd.SelectorMatch(&model.LoadControlLimitDataType{IsLimitActive: yes}))
+	}()
+	// 7: a selector update that carries no data item: reported as failed, or an index out of range?
+	func() {
+		defer func() {
+			if e := recover(); e != nil {
+				q[6] = 0
+			}
+		}()
+		ex := []model.LoadControlLimitDataType{limit(1, yes, true)}
+		fp := partial()
+		fp.LoadControlLimitListDataSelectors = &model.LoadControlLimitListDataSelectorsType{LimitId: util.Ptr(model.LoadControlLimitIdType(1))}
+		_, ok := model.UpdateList(false, ex, nil, fp, nil)
+		q[6] = b2i(!ok)
+	}()
 	return q
 }
